@@ -28,3 +28,7 @@ PROPS["C03"] = dict(pkg="chain", level="fault_enumeration", stages=[
 PROPS["C19"] = dict(pkg="chain", level="exploration", stages=[
     rapid("rapid", "TestC19", dict(shards=16, checks=120), dict(shards=16, checks=4000, timeout=7000)),
 ])
+
+PROPS["C14"] = dict(pkg="chain", level="exploration", stages=[
+    rapid("rapid", "TestC14", dict(shards=16, checks=250), dict(shards=16, checks=8000, timeout=7000)),
+])
